@@ -140,6 +140,25 @@ def check_bm_fnptr(ctx):
     ctx.expect(paths, ret=1)
 
 
+def check_bm_stored(ctx):
+    b0, b1 = bm_bases(ctx)
+    cell = ctx.sym("cell", 64)
+    x = ctx.sym("x", 32)
+    ctx.assume(z3.UGE(cell, b0), z3.ULE(cell - b0, BV((1 << 32) - 4, 64)))
+    paths = ctx.run("k_bm_cb_stored", [b0, b1, cell, x])
+    for q in paths:
+        if q.status != "ret":
+            if q.status == "abort" and len(logs(q, 20)) == 1 and "Over/Underflow" in (q.info or ""):
+                continue      # the callback ran; its (arbitrary) result does not fit the guest's long: a legitimate refusal
+            ctx.fail(q, "storing a callback owner into sandbox memory and calling through the slot ended %s (%s)" % (q.status, q.info))
+            continue
+        l25 = logs(q, 25)
+        body = logs(q, 20)
+        ctx.require(q, z3.And(z3.BoolVal(len(l25) == 1 and len(body) == 1), bv(l25[0][1]) == bv(l25[0][2]), bv(body[0][1]) == 1, bv(body[0][3]) == sext(x, 64)) if l25 and body else z3.BoolVal(False),
+                    "the slot holds the owner's entry point (as handed to the guest for arguments) and a call through it runs exactly the stored callback")
+    ctx.expect(paths, ret=1)
+
+
 def check_bm_signature(ctx):
     b0, b1 = bm_bases(ctx)
     paths = ctx.run("k_bm_cb_signature", [b0, b1])
@@ -219,6 +238,7 @@ def jobs(tier, seed):
            Job("C12_bm_opaque", src, [dict(name="BM opaque callback", fn=check_bm_long, kw=dict(k="k_bm_cb_opaque", opaque=True), unwind=200)], native=False),
            Job("C12_bm_ptr", src, [dict(name="BM pointer callback", fn=check_bm_ptr, unwind=200)], native=False),
            Job("C12_bm_fnptr", src, [dict(name="BM function-pointer result", fn=check_bm_fnptr, unwind=200)], native=False),
+           Job("C12_bm_stored", src, [dict(name="BM callback owner stored into sandbox memory", fn=check_bm_stored, unwind=200)], native=False),
            Job("C12_bm_signature", src, [dict(name="BM registration and release use the same guest signature", fn=check_bm_signature, unwind=200)], native=False),
            Job("C12_bm_void", src, [dict(name="BM void callback", fn=check_bm_void, unwind=200)], native=False)]
     out.append(Job("C12_noop_nested", NOOP + '#include "C12_nested.inc"\n', [dict(name="noop nested call trees", fn=check_nested, unwind=400)]))
